@@ -149,9 +149,14 @@ def run(ctx, replay):
                                                 inv="RuleSatisfiesProp", emit=""))
             vac = []
             import re
-            for m in re.finditer(r"<(Pick\w+) line [^>]*>: (\d+):(\d+)", rc["out"]):
-                if int(m.group(3)) == 0:
-                    vac.append(m.group(1))
+            # the four Pick* actions are the disjuncts of Next: one coverage line each, "<Next line .. (l c l c)>: n:m"
+            acts = re.findall(r"^<(Next) line [^>]*\((\d+) \d+ \d+ \d+\)>: (\d+):(\d+)", rc["out"], re.M)
+            if len(acts) != 4:
+                raise vlib.Infra("coverage run reports %d actions of Next, expected 4 (see %s/tlc.out)" % (len(acts), rc["dir"]))
+            for name, line, gen, dist in acts:
+                if int(gen) == 0:
+                    vac.append("%s@line%s" % (name, line))
+            ctx.cov["action_counts"] = {"Next@line" + line: int(gen) for _, line, gen, _ in acts}
             ctx.cov["vacuous_actions"] = vac
             if vac:
                 raise vlib.Infra("actions never taken in the exhaustive configuration: %s" % vac)
